@@ -453,3 +453,34 @@ Proof.
     destruct (root_slash_sound dpart rule rres pmatch dpart_eqb dpart_wlt rmethods r_websocket (rstrict m) rconvert rparts
                 dpart_eqb_eq _ _ _ _ _ _ E1) as (r2 & Hin2 & Ha2 & _ & _). eauto.
 Qed.
+
+(* ================================================================== the decision chains of _match, regenerated (T2) *)
+Definition action_of_step (st : step rres) : gaction :=
+  match st with
+  | SSkip _ => GContinue | SMeth _ _ => GHaveMatch | SWs _ => GWsMismatch | SFound _ _ => GReturn | SSlashReq _ => GSlashRequired
+  end.
+Definition has_methods (r : rule) : bool := match rmethods r with Some _ => true | None => false end.
+Definition in_methods (r : rule) (meth : str) : bool := match rmethods r with Some ms => existsb (list_eqb meth) ms | None => false end.
+Definition conv_ok (r : rule) (vals : list str) : bool := match rconvert r vals with Some _ => true | None => false end.
+
+(* the model's three rule loops take, rule by rule, exactly the action the source's loops take *)
+Lemma match_loops_regenerated m meth ws r vals :
+  let cs k := cand_step rule rres rmethods r_websocket (rstrict m) rconvert meth ws (k, r, vals) in
+  let g f := f (conv_ok r vals) (rstrict m r) (has_methods r) (in_methods r meth) (Bool.eqb (r_websocket r) ws) in
+  action_of_step (cs KHere) = g g_step_here
+  /\ action_of_step (cs KSlash) = g g_step_slash
+  /\ action_of_step (cs KLate) = g g_step_late.
+Proof.
+  cbv zeta. unfold cand_step, conv_ok, has_methods, in_methods, method_ok, g_step_here, g_step_slash, g_step_late.
+  destruct (rconvert r vals); destruct (rstrict m r); destruct (rmethods r) as [ms|]; try destruct (existsb (list_eqb meth) ms);
+    destruct (r_websocket r); destruct ws; repeat split; reflexivity.
+Qed.
+
+(* block order of _match (1 base case parts == [], 2 static transition, 3 dynamic transitions, 4 late trailing-slash
+   clause, 9 return None; inside the base case: 5 rules of the state, 6 rules behind the "" transition) and the
+   second-pass tests of match(), as regenerated from the source *)
+Lemma match_blocks_regenerated :
+  g_match_blocks = [1; 2; 3; 4; 9] /\ g_base_blocks = [5; 6; 9]
+  /\ (forall merge rv_none, g_second_pass merge rv_none = merge && rv_none)
+  /\ (forall rv_none rule_merge, g_second_nomatch rv_none rule_merge = rv_none || negb rule_merge).
+Proof. repeat split; reflexivity. Qed.
